@@ -152,21 +152,22 @@ type peer struct {
 	inDir  string // direction this peer reads
 	rng    *rand.Rand
 	read   int
+	wrote  int // stream offset of the next byte this peer writes
 	eof    chan struct{}
 }
 
 func (p *peer) write(total int, seg string) {
-	off := 0
-	for off < total {
+	end := p.wrote + total
+	for p.wrote < end {
 		n := sizeOf(seg, p.rng)
-		if n > total-off {
-			n = total - off
+		if n > end-p.wrote {
+			n = end - p.wrote
 		}
 		hx.Emit("Wr", "c", p.c, "d", p.outDir, "n", n)
-		if _, err := p.conn.Write(streamChunk(p.c, p.outDir, off, n)); err != nil {
+		if _, err := p.conn.Write(streamChunk(p.c, p.outDir, p.wrote, n)); err != nil {
 			return
 		}
-		off += n
+		p.wrote += n
 	}
 }
 
@@ -322,21 +323,49 @@ func bridgeDriver(a *Args) {
 		case "client":
 			closeEnd(client)
 			waitEOF(server)
+			hx.Emit("PeerClose", "c", c, "d", server.outDir, "abortive", false)
 			server.conn.Close()
+			waitEOF(client) // the first closer only stopped sending: it reads until the end of the stream
 		case "server":
 			closeEnd(server)
 			waitEOF(client)
+			hx.Emit("PeerClose", "c", c, "d", client.outDir, "abortive", false)
 			client.conn.Close()
+			waitEOF(server)
+		case "client-half-reply", "server-half-reply":
+			// request / half-close / reply: the first closer only shuts down its sending side and keeps
+			// reading; the other peer answers AFTER it has seen the end of the request, then closes
+			first, second := client, server
+			if bc.Closer == "server-half-reply" {
+				first, second = server, client
+			}
+			closeEnd(first)
+			if waitEOF(second) {
+				reply := amountOf(map[bool]string{true: bc.Down, false: bc.Up}[second == server], rng)
+				if reply == 0 {
+					reply = 1 + rng.Intn(5000)
+				}
+				if (bc.Wseg == "1" || bc.Rbuf == "1" || bc.Rbuf == "7") && reply > 3000 {
+					reply = 3000
+				}
+				second.write(reply, bc.Wseg)
+				hx.Emit("PeerClose", "c", c, "d", second.outDir, "abortive", false)
+				halfClose(second.conn)
+				waitEOF(first)
+				second.conn.Close()
+			}
 		case "client-then-server":
 			closeEnd(client)
 			time.Sleep(time.Duration(rng.Intn(5)) * time.Millisecond)
 			closeEnd(server)
 			waitEOF(server)
+			waitEOF(client)
 		default:
 			closeEnd(server)
 			time.Sleep(time.Duration(rng.Intn(5)) * time.Millisecond)
 			closeEnd(client)
 			waitEOF(client)
+			waitEOF(server)
 		}
 		// make sure nothing is left open by the harness itself, and that both read loops have ended
 		// before the scenario is declared finished (no late events in the next scenario)
@@ -438,7 +467,12 @@ func bridgeDriver(a *Args) {
 		case <-servers[i].eof:
 		case <-time.After(10 * time.Second):
 		}
+		hx.Emit("PeerClose", "c", p.c, "d", "down", "abortive", false)
 		servers[i].conn.Close()
+		select {
+		case <-p.eof:
+		case <-time.After(10 * time.Second):
+		}
 	}
 	time.Sleep(50 * time.Millisecond)
 	hx.Emit("Final", "server_open", atomic.LoadInt64(&srv.open))
